@@ -214,6 +214,8 @@ def correspondence(ctx):
     # line of orig_trees_<n>.txt), a basis whose symbols are all one character long (parameter names a0, a1 are longer than any of them)
     cases += [[7, [["x", "a"], ["log10_abs"], []]], [8, [["x", "a"], ["sqrt_abs"], []]], [9, [["x"], ["tenexp"], []]]]
     cases += [[n, [["x", "a"], [], ["+", "*"]]] for n in (1, 3, 5)] + [[3, [["a"], [], ["+"]]]]
+    # five parameters in one tree (a0..a4): only from 9 nodes on  (11 nodes = six parameters costs 20 minutes: thorough tier only)
+    cases += [[9, [["x", "a"], [], ["*"]]]] + ([] if ctx.quick else [[11, [["a"], [], ["+"]]]])
     rc, out, err = esrv.run_py(ctx.scratch, IMPL, ["gen"], stdin=json.dumps(cases), timeout=3000)
     if rc != 0:
         rep.fail("broken-correspondence", "generation driver failed", "C01:gen-driver", observed=err[-2000:], theorem="generation sweep")
@@ -370,6 +372,14 @@ def search(ctx):
                          observed={"lines": len(g["trees"]), kind: [list(x) for x in lst[:5]]},
                          expected="every labelled tree with %d nodes over the basis exactly once (%d trees), parameters a0,a1,.. in prefix order"
                                   % (n, sum(want.values())))
+        f1, f2 = g.get("files1"), g.get("files2")
+        if f1 and f1.get("trees") is not None and f1["trees"] != (f1.get("orig_trees") or 0) + (f1.get("extra_trees") or 0):
+            rep.fail("failing-input", "generation n=%d basis=%r: trees_%d.txt has %s lines but orig_trees + extra_trees have %s + %s" % (
+                n, basis, n, f1["trees"], f1.get("orig_trees"), f1.get("extra_trees")), "C01:gen:trees-file", input={"n": n, "basis": basis}, observed=f1)
+        if f1 and f2 and (f2 != f1 or not g.get("trees2_same", True)):
+            rep.fail("failing-input", "generation n=%d basis=%r run a second time into the same directory does not list every tree once: file line counts %r "
+                     "after the first run, %r after the second" % (n, basis, f1, f2), "C01:gen:regenerated", input={"n": n, "basis": basis, "runs": 2},
+                     observed=f2, expected=f1)
         if g.get("announced") is not None and g["announced"] != len(g["trees"]) and clean:
             rep.fail("failing-input", "generation n=%d basis=%r announces %d trees but writes %d" % (n, basis, g["announced"], len(g["trees"])),
                      "C01:gen:count", input={"n": n, "basis": basis}, observed=len(g["trees"]), expected=g["announced"])
